@@ -113,7 +113,7 @@ class Multiply(SameArrayShapeMixin, Command):
 
         result = arrays[0].copy()
         for arr in arrays[1:]:
-            result *= arr
+            result = result * arr
 
         return result
 
